@@ -29,6 +29,11 @@ pub fn check(tier: Tier) -> Check {
         Part::new("C01/fragmentation-uniform", json!({}), 0, 60),
         // the second transmission of a publish (session resume, hook H1) carries the caller's values too
         Part::new("C01/resume", json!({"depth": 3, "expiry": 1000, "secs_ago": 10, "rich": true}), 0, 60),
+        // the re-sent packets under every way the transport may take them (a write half that gathers
+        // vectored writes: a partial write may end inside a later packet)
+        Part::new("C01/resume", json!({"depth": 3, "expiry": 1000, "secs_ago": 10, "rich": true, "wmode": "explore"}), 2, tier.pick(40, 300)),
+        Part::new("C01/resume", json!({"depth": 3, "expiry": 1000, "secs_ago": 10, "wmode": "htp"}), 0, tier.pick(40, 300)),
+        Part::new("C01/resume", json!({"depth": 3, "expiry": 1000, "secs_ago": 10, "wmode": "one"}), 0, tier.pick(40, 300)),
         Part::new("C01/fragmentation-uniform", json!({"flavour": 3}), 0, 60),
         Part::new("C01/fragmentation-uniform", json!({"flavour": 4}), 0, 60),
         Part::new("C01/fragmentation", json!({"flavour": 4}), 1, tier.pick(40, 600)),
